@@ -182,6 +182,59 @@ fn constructor(rep: &mut Report, r: &mut Rng, n: u64) {
             );
         }
         rep.class(&format!("new|recursive|slot={}|cr3={}|{}", ["self+P", "self+P+flags", "self-noP", "other", "zero"][slot_kind as usize], if cr3_self { "self" } else { "other" }, res));
+        // "the frame currently loaded": two constructions in one function with a switch of the root in between are two
+        // looks at the root register, each judged against what is loaded at that moment
+        if i % 4 == 1 {
+            use x86_64::registers::control::{Cr3, Cr3Flags};
+            use x86_64::structures::paging::PhysFrame;
+            let second_self = r.chance(1, 2);
+            let cr3b = if second_self { root_phys } else { other_phys };
+            mmu.flush();
+            mmu.preload(l4, 0, true);
+            trapemu::regs().cr[3] = cr3;
+            let ((a, b), evs) = trapemu::trapped(|| {
+                let t = unsafe { &mut *(l4 as *mut PageTable) };
+                let a = res_name(&RecursivePageTable::new(t));
+                unsafe { Cr3::write(PhysFrame::containing_address(x86_64::PhysAddr::new(cr3b)), Cr3Flags::empty()) };
+                let t2 = unsafe { &mut *(l4 as *mut PageTable) };
+                let b = res_name(&RecursivePageTable::new(t2));
+                (a, b)
+            });
+            rep.eval();
+            let exp_b = if (slot_raw & P != 0) && (slot_raw & 0x000f_ffff_ffff_f000) == cr3b { "Ok" } else { "NotActive" };
+            let reads = evs.iter().filter(|e| e.kind == trapemu::K::MovFromCr && e.n == 3).count();
+            if a != exp || b != exp_b || reads != 2 {
+                rep.violation("new|twice-around-a-root-switch|second-construction-judged-against-a-stale-root", J::obj(vec![("profile", J::s(crate::util::profile_name())), ("slot", J::hex(slot_raw)), ("cr3_first", J::hex(cr3)), ("cr3_second", J::hex(cr3b)), ("results", J::s(format!("{} then {}", a, b))), ("expected", J::s(format!("{} then {}", exp, exp_b))), ("cr3_reads_executed", J::U(reads as u64))]));
+            }
+            rep.class(&format!("new|twice-around-root-switch|{}-then-{}", a, b));
+            trapemu::regs().cr[3] = cr3;
+        }
+        // the customary kernel-half recursive indices (256..511) cannot be mapped by this process: the table reference at
+        // [R,R,R,R] sign-extended is redirected onto a shadow table by the trap monitor (E4, REDIRECT)
+        if i % 4 == 2 {
+            let rk = 256 + r.below(256);
+            let hi = addr4(rk, rk, rk, rk);
+            let mut shadow = Box::new(PageTable::new());
+            let sp = &mut *shadow as *mut PageTable as u64;
+            unsafe { *(sp as *mut u64).add(rk as usize) = slot_raw };
+            trapemu::regs().cr[3] = cr3;
+            unsafe { trapemu::REDIRECT = Some((hi, sp)) };
+            crate::util::fault_means("C20", "new|kernel-half-recursive-address|fatal-fault".into(), J::obj(vec![("table_address", J::hex(hi)), ("recursive_index", J::U(rk))]));
+            let ((name, idx_ok), evs) = trapemu::trapped(|| {
+                let t = unsafe { &mut *(hi as *mut PageTable) };
+                let res = RecursivePageTable::new(t);
+                let name = res_name(&res);
+                (name, true)
+            });
+            crate::util::fault_means_nothing();
+            unsafe { trapemu::REDIRECT = None };
+            let _ = idx_ok;
+            rep.eval();
+            if name != exp {
+                rep.violation(&format!("new|kernel-half-recursive-address|expected-{}|got-{}", exp, name), J::obj(vec![("table_address", J::hex(hi)), ("recursive_index", J::U(rk)), ("slot", J::hex(slot_raw)), ("cr3", J::hex(cr3)), ("events", J::A(evs.iter().map(|e| J::s(trapemu::fmt_event(e))).collect()))]));
+            }
+            rep.class(&format!("new|kernel-half-recursive|slot={}|{}", ["self+P", "self+P+flags", "self-noP", "other", "zero"][slot_kind as usize], name));
+        }
         // near-recursive addresses: one index differing at each position -> NotRecursive (no memory access needed)
         let pos = r.below(3) + 1; // positions p3, p2, p1 relative to p4
         let mut idx = [ri as u64; 4];
@@ -240,6 +293,7 @@ fn constructor(rep: &mut Report, r: &mut Rng, n: u64) {
         }
     }
     rep.count("softmmu_faults_resolved", mmu.total_faults);
+    rep.count("kernel_half_table_accesses_redirected", trapemu::REDIRECT_HITS.load(core::sync::atomic::Ordering::Relaxed));
 }
 
 pub fn run(a: &Args, rep: &mut Report) {
